@@ -1248,6 +1248,20 @@ int pthread_join(pthread_t p, void** ret)
   return real_fn(p, ret);
 }
 
+int pause(void)
+{
+  static auto real_fn = real<int (*)(void)>("pause");
+  if (simulated())
+  {
+    // quill's signal handler parks every thread but the first in pause(): in the simulation the thread simply
+    // never runs again (no signal is ever delivered to it asynchronously)
+    ipc::block_forever();
+    errno = EINTR;
+    return -1;
+  }
+  return real_fn();
+}
+
 unsigned int alarm(unsigned int seconds)
 {
   static auto real_fn = real<unsigned int (*)(unsigned int)>("alarm");
